@@ -17,6 +17,7 @@ pub struct LinkOcc {
     pub block_ref: bool,
     pub kind: LinkKind,
     pub in_quote: bool,
+    pub in_item: bool,
     pub in_table: bool,
     pub raw_dest: String,
     pub text: String,
@@ -30,6 +31,21 @@ fn collect(
     parent_is_item: bool,
     in_quote: bool,
     in_table: bool,
+    out: &mut Vec<LinkOcc>,
+) {
+    collect_in(owner, text, lines, blocks, parent_is_item, in_quote, in_table, parent_is_item, out)
+}
+
+#[allow(clippy::too_many_arguments)]
+fn collect_in(
+    owner: &str,
+    text: &str,
+    lines: &Lines,
+    blocks: &[SBlock],
+    parent_is_item: bool,
+    in_quote: bool,
+    in_table: bool,
+    in_item: bool,
     out: &mut Vec<LinkOcc>,
 ) {
     let dir = pathalg::dir_of(owner);
@@ -54,6 +70,7 @@ fn collect(
                     block_ref: is_block_ref,
                     kind: kind.clone(),
                     in_quote,
+                    in_item,
                     in_table,
                     raw_dest: dest.clone(),
                     text: collapse_ws(&plain_text(children)),
@@ -62,8 +79,8 @@ fn collect(
         }
         let _ = text;
         match b.kind {
-            BKind::Quote => collect(owner, text, lines, &b.children, false, true, in_table, out),
-            BKind::Item => collect(owner, text, lines, &b.children, true, in_quote, in_table, out),
+            BKind::Quote => collect_in(owner, text, lines, &b.children, false, true, in_table, in_item, out),
+            BKind::Item => collect_in(owner, text, lines, &b.children, true, in_quote, in_table, true, out),
             BKind::Table | BKind::TableHead | BKind::TableRow => {
                 // cells: the linking block is the table
                 let mut cells = vec![];
@@ -88,6 +105,7 @@ fn collect(
                                     block_ref: false,
                                     kind: kind.clone(),
                                     in_quote,
+                                    in_item,
                                     in_table: true,
                                     raw_dest: dest.clone(),
                                     text: collapse_ws(&plain_text(children)),
@@ -97,7 +115,7 @@ fn collect(
                     }
                 }
             }
-            _ => collect(owner, text, lines, &b.children, false, in_quote, in_table, out),
+            _ => collect_in(owner, text, lines, &b.children, false, in_quote, in_table, in_item, out),
         }
     }
 }
